@@ -48,7 +48,11 @@ std::string run_tree(const Cmd& c){
     using Conf = TbfSpacialConfiguration<double, D>;
     using Space = TbfMortonSpaceIndex<D, Conf, Per>;
     constexpr long ND = D + NX;
-    using Tree = TbfTree<double, double, ND, long, 2, long, long, Space>;
+    // result values per particle: 2 in even dimensions, MORE than the data values in odd dimensions (both orders of the two counts occur)
+    constexpr long NR = (D % 2 == 1) ? ND + 2 : 2;
+    using Tree = TbfTree<double, double, ND, long, NR, long, long, Space>;
+    bool rhs_set = false;
+    auto xrhs = [&](long v, long i) -> long { return rhs_set ? 5000 * v + 13 * i + v : 0; };   // expected value of result row v >= 2
     const long H = c.L(3), B = c.L(4), mode = c.L(5), N = c.L(6);
     std::array<double, D> w, ctr; for(long k = 0 ; k < D ; ++k){ w[k] = 1; ctr[k] = 0.5; }
     Conf conf(H, w, ctr);
@@ -96,11 +100,12 @@ std::string run_tree(const Cmd& c){
             // every stored particle: original index, its leaf index, all data values (bit patterns)
             std::map<long, std::string> rows;
             long dup = 0;
-            tree.applyToAllLeaves([&](auto&& h, const long* idx, const std::array<double*, ND> d, const std::array<long*, 2> rhs){
+            tree.applyToAllLeaves([&](auto&& h, const long* idx, const std::array<double*, ND> d, const std::array<long*, NR> rhs){
                 for(long p = 0 ; p < h.nbParticles ; ++p){
                     std::string r = std::to_string(h.spaceIndex);
                     for(long v = 0 ; v < ND ; ++v) r += ":" + hexd(d[v][p]);
                     r += ":r" + std::to_string(rhs[0][p]) + "," + std::to_string(rhs[1][p]);
+                    for(long v = 2 ; v < NR ; ++v) if(rhs[v][p] != xrhs(v, idx[p])) r += ",row" + std::to_string(v) + "is" + std::to_string(rhs[v][p]) + "not" + std::to_string(xrhs(v, idx[p]));
                     if(rows.count(idx[p])) dup += 1;
                     rows[idx[p]] = r;
                 }
@@ -116,8 +121,12 @@ std::string run_tree(const Cmd& c){
         else if(q == "setrhs"){
             // give every particle recognisable result values (as an executor would have accumulated)
             tree.applyToAllLeaves([&](auto&& h, const long* idx, auto&&, auto&& rhs){
-                for(long p = 0 ; p < h.nbParticles ; ++p){ rhs[0][p] = 1000 + 7 * idx[p]; rhs[1][p] = -3 - 11 * idx[p]; }
+                for(long p = 0 ; p < h.nbParticles ; ++p){
+                    rhs[0][p] = 1000 + 7 * idx[p]; rhs[1][p] = -3 - 11 * idx[p];
+                    for(long v = 2 ; v < NR ; ++v) rhs[v][p] = 5000 * v + 13 * idx[p] + v;
+                }
             });
+            rhs_set = true;
             out += "ok";
         }
         else if(q == "export"){
@@ -135,6 +144,7 @@ std::string run_tree(const Cmd& c){
                 out += " " + std::to_string(i) + "=" + std::to_string(od) + ":" + std::to_string(orr);
                 for(long v = 0 ; v < ND ; ++v) if(std::memcmp(&data[i][v], &cur[i][v], sizeof(double)) != 0) bad += 1;
                 if(rhs[i][0] != 1000 + 7 * i || rhs[i][1] != -3 - 11 * i) bad += 1;
+                for(long v = 2 ; v < NR ; ++v) if(rhs[i][v] != xrhs(v, i)) bad += 1;
             }
             out += " bad=" + std::to_string(bad);
         }
@@ -192,7 +202,7 @@ std::string run_tree(const Cmd& c){
                     for(long p = 0 ; p < g.getNbParticlesInLeaf(k) ; ++p){
                         if(view.getParticleIndexes(k)[p] != g.getParticleIndexes(k)[p]) bad += 1;
                         for(long v = 0 ; v < ND ; ++v) if(std::memcmp(&d0[v][p], &d1[v][p], sizeof(double)) != 0) bad += 1;
-                        for(long v = 0 ; v < 2 ; ++v) if(r0[v][p] != r1[v][p]) bad += 1;
+                        for(long v = 0 ; v < NR ; ++v) if(r0[v][p] != r1[v][p]) bad += 1;
                     }
                     for(long v = 0 ; v < ND ; ++v) if((unsigned char*)d1[v] - np[0].first != (unsigned char*)d0[v] - ps[0].first) bad += 1;
                 }
